@@ -88,6 +88,14 @@ func newFakeLog(c *Case, log []truth, abort func(sig, msg string)) *fakeLog {
 
 func (f *fakeLog) BaseURI() string { return fakeURI }
 
+// newPhase forgets the per-start-index call counters, so that the error bursts hit a second call on
+// the same object again.
+func (f *fakeLog) newPhase() {
+	f.mu.Lock()
+	f.calls = map[int64]int{}
+	f.mu.Unlock()
+}
+
 // sizeNow evaluates the step function.
 func (f *fakeLog) sizeNow() int64 {
 	el := time.Since(f.start)
